@@ -182,6 +182,14 @@ pub fn ops(seed: u64, scale: u32) -> Vec<Op> {
         let p3 = p.clone();
         add("unconstrained_triangulation.polygon_6_holes".into(), Box::new(move || p3.unconstrained_triangulation().map(|t| dig_tris(&t)).unwrap_or(0xE)));
     }
+    // a triangulation with a zero-area triangle on a T-junction (what a triangulator emits there): the first call in a
+    // process must answer like every later one
+    {
+        let t = |a: (f64, f64), b: (f64, f64), c: (f64, f64)| Triangle::new(Coord { x: a.0, y: a.1 }, Coord { x: b.0, y: b.1 }, Coord { x: c.0, y: c.1 });
+        let k = r.range(1, 5) as f64;
+        let tris = vec![t((0.0, 0.0), (2.0 * k, -2.0 * k), (4.0 * k, 0.0)), t((0.0, 0.0), (2.0 * k, 0.0), (2.0 * k, 2.0 * k)), t((2.0 * k, 0.0), (4.0 * k, 0.0), (2.0 * k, 2.0 * k)), Triangle(Coord { x: 0.0, y: 0.0 }, Coord { x: 2.0 * k, y: 0.0 }, Coord { x: 4.0 * k, y: 0.0 })];
+        add("stitch.kite_with_zero_area_triangle".into(), Box::new(move || tris.stitch_triangulation().map(|mp| dig_mp(&mp)).unwrap_or(0xE)));
+    }
     // ---- point-set algorithms
     let npts = [12, 300, 300][scale as usize];
     for (i, grid) in [(0, None), (1, Some(12)), (2, Some(40))] {
